@@ -14,8 +14,8 @@ RULE = (
     "agent's Q and counts are compared with a plain-float reference; every policy() and get_reward() result is judged. "
     "Non-trivial = at least 2 actions visited at least twice each; distinct by sequence hash."
 )
-ASSUMPTIONS = ["reference losses are positive (the relative-improvement reward is undefined at a zero reference)"]
-REQUIRED_COUNTERS = {"twins_seeded_through_setter": 100, "learn_steps": 2000, "policy_calls": 2000, "reward_calls": 2000, "improving_steps": 200, "twin_pairs": 50}
+ASSUMPTIONS = ["the one undefined case of the rule - an improvement over a reference of exactly 0.0 (division by zero) - is not generated; zero and negative references with any other observation are"]
+REQUIRED_COUNTERS = {"zero_reference_steps": 200, "negative_reference_steps": 200, "twins_seeded_through_setter": 100, "learn_steps": 2000, "policy_calls": 2000, "reward_calls": 2000, "improving_steps": 200, "twin_pairs": 50}
 SHARDS = {"quick": 8, "thorough": 16}
 
 
@@ -48,9 +48,13 @@ def one_sequence(rng, out):
         c["twins_seeded_through_setter"] = c.get("twins_seeded_through_setter", 0) + 1
     env = MABCalibrationEnv(n)
     best0 = float(10.0 ** rng.uniform(-3, 3))
+    mode = str(rng.choice(["random", "improving", "flat", "adversarial", "zero_reference", "negative"]))
+    if mode == "zero_reference":
+        best0 = 0.0          # a perfect fit was reached: later observations cannot improve on it (losses are >= 0 here)
+    elif mode == "negative":
+        best0 = -best0       # e.g. a likelihood-type loss
     env._curr_best_loss = best0
     ref_best = best0
-    mode = str(rng.choice(["random", "improving", "flat", "adversarial"]))
     Q = [float(init)] * n
     cnt = [0] * n
     desc = {"n_actions": n, "alpha": alpha, "eps": eps, "init": init, "seed": seed, "steps": steps, "mode": mode, "best0": best0}
@@ -70,7 +74,13 @@ def one_sequence(rng, out):
         if eps == 0.0 and not (Q[a] == max(Q)):
             return bad(f"eps=0 but chosen action {a} has estimate {Q[a]!r} < max {max(Q)!r}")
         # observation
-        if mode == "improving":
+        if mode == "zero_reference":
+            new = float(rng.choice([0.0, float(rng.uniform(0.0, 3.0))]))
+            c["zero_reference_steps"] = c.get("zero_reference_steps", 0) + 1
+        elif mode == "negative":
+            new = ref_best + float(rng.normal()) * abs(ref_best) * 0.5
+            c["negative_reference_steps"] = c.get("negative_reference_steps", 0) + 1
+        elif mode == "improving":
             new = ref_best * float(rng.uniform(0.3, 0.999))
         elif mode == "flat":
             new = ref_best * float(rng.uniform(1.0, 3.0))
